@@ -126,6 +126,8 @@ StepDestroy(s, ev, at) ==
         \cup If(tag = "vals" /\ acc /\ ev.out[2] # vals, {V(<<"C02">>, at, "destroy returned values other than the entity's own")})
         \cup If(tag = "p" /\ ~(C!Foreign(w, ky) \/ (acc /\ C!OverflowDue(w, t)) \/ (acc /\ ev.fault)),
                 {V(<<"C10", "C01">>, at, "destroy panicked without a documented reason")})
+        \cup If(tag \in {"unit", "vals"} /\ acc /\ C!OverflowDue(w, t),
+                {V(<<"C08", "C10">>, at, "removal at the version limit did not panic although wrapping is not enabled")})
         \cup If(tag = "p" /\ acc /\ C!OverflowDue(w, t) /\ ~ev.fault /\ SeqSet(ev.drops) # {},
                 {V(<<"C10">>, at, "destroy released values although it panicked on version overflow")})
     IN Finish(s, [s.W EXCEPT ![ev.w] = w1], ev, IF acc /\ removed THEN C!Ids(vals) ELSE {},
@@ -171,11 +173,12 @@ StepLoop(s, ev, at) ==
         broke == Len(ev.visits) > 0 /\ ev.visits[Len(ev.visits)].dec \in {"b", "bd"}
         tag  == ev.out[1]
         viol1 ==
-             If(tag = "done" /\ ~broke /\ f.visited # atStart,
+             If(tag = "done" /\ ~broke /\ ~f.ovf /\ f.visited # atStart,
                 {V(IF dest THEN <<"C07">> ELSE <<"C06">>, at, "loop without Break did not visit exactly the matching entities alive at its start")})
         \cup If(~(f.visited \subseteq atStart),
                 {V(IF dest THEN <<"C07", "C05">> ELSE <<"C06", "C05">>, at, "loop visited an entity that is not a matching entity alive at its start")})
-        \cup If(tag = "p" /\ ~ev.fault, {V(IF dest THEN <<"C10", "C07">> ELSE <<"C10", "C06">>, at, "query loop panicked without an injected fault")})
+        \cup If(tag = "p" /\ ~ev.fault /\ ~f.ovf, {V(IF dest THEN <<"C10", "C07">> ELSE <<"C10", "C06">>, at, "query loop panicked without an injected fault")})
+        \cup If(tag # "p" /\ f.ovf, {V(<<"C08", "C10">>, at, "removal at the version limit neither panicked nor is wrapping enabled")})
     IN Finish(s, [s.W EXCEPT ![ev.w] = f.w], ev, f.dropped, TRUE, ev.w, {}, viol1 \cup f.v, {}, 0, at)
 
 StepFind(s, ev, at) ==
